@@ -2,6 +2,7 @@ package main
 
 import (
 	"bufio"
+	"code.gopub.tech/tpl/exp"
 	"errors"
 	"fmt"
 	"math"
@@ -399,6 +400,70 @@ func main() {
 				default:
 					want = "" // an unexported field: the correspondence with the model decides
 				}
+			case (c == 6 || c == 8 || c == 9) && r.Chance(85): // a CHAIN of three scopes, the middle one any Go value: fall through only when ABSENT (C06)
+				inner := map[string]any{}
+				if r.Chance(30) {
+					inner[r.Pick([]string{"N", "Name", "hidden", "x", "len"})] = "inner"
+				}
+				middle := []any{&T4{N: 3}, T1{Name: "Ann", Age: 30, Inner: &T2{X: 4}}, &T1{Name: "Bob"}, (*T1)(nil), T3{T2{X: 6}, 7}, []any{int64(1), "a"}, [2]int{7, 8},
+					map[string]any{"Name": "m"}, nil, int64(5), "str", map[string]any(nil)}[r.Intn(12)]
+				outer := map[string]any{"N": "outer", "Name": "outer", "hidden": "outer", "x": "outer", "Next": "outer", "0": "outer", "Age": "outer", "PtrM": "outer"}
+				if r.Chance(30) {
+					outer["len"] = "outer"
+				}
+				name := r.Pick([]string{"N", "Name", "hidden", "x", "len", "Next", "Age", "PtrM", "nosuch", "true", "Tags", "X"})
+				src, tag = name, "chain"
+				// native expectation, scope by scope
+				want = ""
+				if v, ok := inner[name]; ok {
+					want = "OK " + encResult(newValEnc(), v) + " LOG "
+				} else {
+					v, class := nativeField(middle, name)
+					switch {
+					case class == "":
+						want = "OK " + encResult(newValEnc(), v) + " LOG "
+					case class == "err":
+						want = "ERR err LOG " // the lookup FAILED in the middle scope: no fall-through to the outer one
+					default:
+						if o, ok := outer[name]; ok {
+							want = "OK " + encResult(newValEnc(), o) + " LOG "
+						} else if name == "true" {
+							want = "OK " + encResult(newValEnc(), true) + " LOG "
+						} else if name == "len" {
+							want = "OK F LOG "
+						} else {
+							want = "ERR nosuch LOG "
+						}
+					}
+				}
+				res := ""
+				func() {
+					defer func() {
+						if x := recover(); x != nil {
+							res = fmt.Sprintf("PANIC %v", x)
+						}
+					}()
+					tree, err := exp.ParseCode(src)
+					if err != nil {
+						res = "ERR parse"
+						return
+					}
+					v, err := exp.Evaluate(exp.NewPos(1, 1), tree, exp.Combine(exp.Combine(exp.NewScope(inner), exp.NewScope(middle)), exp.NewScope(outer)))
+					if err != nil {
+						res = "ERR " + errClass(err) + " LOG "
+					} else {
+						res = "OK " + encResult(newValEnc(), v) + " LOG "
+					}
+				}()
+				why := ""
+				if res != want {
+					why = fmt.Sprintf("chain of scopes, name %q: implementation %s, expected %s", name, res, want)
+				}
+				out.count(tag)
+				ve := newValEnc()
+				out.put(fmt.Sprintf("evalc %s %s %s %s %s", meth, ve.enc(inner), ve.enc(middle), ve.enc(outer), encStr(src)), res,
+					verdict("C06", why), verdict("C08", panicOnly(res)))
+				continue
 			case c < 8: // call forms the generators above do not write: variadic calls, results that are not (value[, error])
 				misc := [][2]string{
 					{"cat(st.Tags...)", "OK s97.98 LOG "}, {"cat('x', st.Tags...)", "OK s120.97.98 LOG "}, {"cat(emp...)", "OK s LOG "},
